@@ -109,10 +109,16 @@ inductive Scan where
   | fin (cnt : Nat) (sep : Option Nat)
 deriving DecidableEq, Repr
 
+/-- `if let Some(low) = separator { if low < **key { … } }` -/
+def gapBefore (sep : Option Nat) (key : Nat) : Bool :=
+  match sep with
+  | some low => decide (low < key)
+  | none => false
+
 def scan {N : Type} (sep : Option Nat) (cnt : Nat) : Inner N → Scan
   | [] => .fin cnt sep
   | (key, e) :: t =>
-    if (match sep with | some low => decide (low < key) | none => false) then .unch cnt key
+    if gapBefore sep key then .unch cnt key
     else if e.inserted.isSome then .next cnt e.next
     else scan e.next (cnt + 1) t
 
@@ -163,11 +169,13 @@ deriving DecidableEq, Repr
 
 /-- variants of the mirror: `leaf` = `leaf_stage.rs` (prepared leaves, `assert!(prepared_leaves.peek().is_none())`);
 `staleHigh` = seeded change `C01-branch-stage-stale-range-high` (`range.high` read once before the final merge loop);
-`singleMerge` = seeded change `C01-branch-stage-single-merge` -/
+`singleMerge` = seeded change `C01-branch-stage-single-merge`; `highMax` = seeded change `C13-extend-range-high-max`
+(`range.high = range.high.max(response.new_high_range)`, where `None` — unbounded — sorts below `Some`) -/
 structure Cfg where
   leaf : Bool := false
   staleHigh : Bool := false
   singleMerge : Bool := false
+  highMax : Bool := false
 deriving DecidableEq, Repr
 
 /-- a prepared leaf (`preload_and_prepare`) -/
@@ -360,6 +368,16 @@ def takeResp (w : W σ N C) (r : Resp N) : W σ N C :=
     | none => (r.changed, w.tr)
   { w with high := r.newHigh, resp := none, tr := { tr with inner := extend tr.inner changed } }
 
+/-- `Option::max` of the standard library: `None < Some(_)` -/
+def optMax : Option Nat → Option Nat → Option Nat
+  | some a, some b => some (if a < b then b else a)
+  | some a, none => some a
+  | none, b => b
+
+/-- `worker_params.range.high = response.new_high_range` — or, with the seeded change `highMax`, the `max` of both -/
+def takeRespC (cfg : Cfg) (w : W σ N C) (r : Resp N) : W σ N C :=
+  if cfg.highMax then { takeResp w r with high := optMax w.high r.newHigh } else takeResp w r
+
 /-- ONE step of worker `i` -/
 def step (U : Upd σ N C) (cfg : Cfg) (db : List (DbN N)) (g : G σ N C) (i : Nat) : Res (G σ N C) :=
   let w := g.ws i
@@ -402,7 +420,7 @@ def step (U : Upd σ N C) (cfg : Cfg) (db : List (DbN N)) (g : G σ N C) (i : Na
     match w.resp with
     | none => .blocked
     | some r =>
-      let w' := takeResp w r
+      let w' := takeRespC cfg w r
       match r.newRight with
       | some nr =>
         let w'' := { w' with right := nr }
